@@ -1,12 +1,12 @@
 #!/usr/bin/env python3
-"""Hand-written mutation probes: quick textual edits of a scratch worktree (/tmp/eval), each expected to be
+"""Hand-written mutation probes: quick textual edits of scratch copies of /repo (temp dirs, removed), each expected to be
 reported (exit 1) by the named property's check.  Used while developing rules; not part of the registered checks.
 usage: probe.py [PROP ...]"""
 import os
 import subprocess
 import sys
 
-WT = os.environ.get('PROBE_WT', '/tmp/eval')
+REPO = os.environ.get('SA_REPO_ROOT', '/repo')
 P = 'lib/carbon/'
 
 PROBES = [
@@ -108,30 +108,41 @@ def sh(cmd, cwd=None):
   return p.returncode, p.stdout.decode('utf-8', 'replace')
 
 
-def main():
-  want = set(a.upper() for a in sys.argv[1:])
-  sh('git checkout -q -- .', cwd=WT)
-  missed = []
-  for pid, prop, rel, old, new in PROBES:
-    if want and prop not in want and pid.upper() not in want:
-      continue
-    path = os.path.join(WT, rel)
-    src = open(path).read()
-    if src.count(old) != 1:
-      print('%-5s %-4s anchor text found %d times - probe skipped' % (pid, prop, src.count(old)))
-      continue
+def one(args):
+  pid, prop, rel, old, new = args
+  import shutil, tempfile
+  src_path = os.path.join(REPO, rel)
+  src = open(src_path).read()
+  if src.count(old) != 1:
+    return pid, prop, 'anchor text found %d times - probe skipped' % src.count(old), []
+  tmp = tempfile.mkdtemp(prefix='sa-probe-')
+  try:
+    for sub in ('lib', 'bin'):
+      shutil.copytree(os.path.join(REPO, sub), os.path.join(tmp, sub), ignore=shutil.ignore_patterns('__pycache__', 'tests'))
+    path = os.path.join(tmp, rel)
     open(path, 'w').write(src.replace(old, new))
     rc, _ = sh('python3 -c "import ast,sys; ast.parse(open(sys.argv[1]).read())" %s' % path)
-    rc2, out = sh('python3 -m sa check %s --root %s' % (prop, WT), cwd='/verif')
+    rc2, out = sh('python3 -m sa check %s --root %s' % (prop, tmp), cwd='/verif')
     rules = sorted({l.split()[1] for l in out.splitlines() if l.startswith('  lib/') and len(l.split()) > 1})
-    status = {0: 'MISSED', 1: 'caught', 2: 'undecided(exit 2)'}[rc2]
+    status = {0: 'MISSED', 1: 'caught', 2: 'undecided(exit 2)'}.get(rc2, 'exit %d' % rc2)
     if rc != 0:
       status = 'SYNTAX-ERROR in probe'
-    print('%-5s %-4s %-18s %s' % (pid, prop, status, ' '.join(rules)))
-    if rc2 != 1:
-      missed.append(pid)
-    open(path, 'w').write(src)
-  print('missed/undecided:', missed)
+    return pid, prop, status, rules
+  finally:
+    shutil.rmtree(tmp, ignore_errors=True)
+
+
+def main():
+  from concurrent.futures import ProcessPoolExecutor
+  want = set(a.upper() for a in sys.argv[1:])
+  jobs = [p for p in PROBES if not want or p[1] in want or p[0].upper() in want]
+  missed = []
+  with ProcessPoolExecutor(16) as ex:
+    for pid, prop, status, rules in ex.map(one, jobs):
+      print('%-5s %-4s %-18s %s' % (pid, prop, status, ' '.join(rules)))
+      if status != 'caught':
+        missed.append(pid)
+  print('%d probes; missed/undecided: %s' % (len(jobs), missed))
 
 
 if __name__ == '__main__':
